@@ -33,7 +33,7 @@ def obligations(tier):
         obs.append(Ob(id=f'sql.form1.a{lo}', module=M, func='sql_ok', params='a: int, wa: int, wb: int', args='1, a, wa, 0, wb, True',
                       pre=[f'{lo} <= a < {hi} and 0 <= wa < {nw} and 0 <= wb < {nw}'], timeout=T, group='two wrappers',
                       bound=f'W2(W1(atom)): atoms [{lo},{hi}) x {nw} x {nw} wrappers'))
-    was = [0] if quick else list(range(nw))
+    was = [0] if quick else list(range(0, nw, 2))
     for wa in was:
         for lo in range(0, na, 7):
             hi = min(na, lo + 7)
@@ -45,7 +45,7 @@ def obligations(tier):
                   pre=[f'0 <= a < {na} and (wa == 5 or wa == 7) and (b == 17 or b == 18 or b == 19 or b == 30 or b == 31)'], timeout=T,
                   group='binary', bound='with v := <parameter> select W(atom a), W in {LIMIT $n, FILTER .name = $s}: the parameter of the '
                   'unused binding must still be numbered consistently'))
-    was = [0] if quick else [0, 4, 7, 8, 10]
+    was = [0] if quick else [0, 7, 10]
     bsel = '(b == 0 or b == 3 or b == 15)' if quick else f'0 <= b < {na}'
     asel4 = '(a == 0 or a == 3 or a == 15)' if quick else f'0 <= a < {na}'
     for wa in was:
@@ -137,7 +137,7 @@ def run(tier, only=''):
                      'two interpreters with different hash seeds give identical SQL.'),
         bounds={'atoms': na, 'wrappers': nw, 'binary forms': nbin, 'DML forms': ndml, 'nesting contexts': nnest,
                 'quick': 'form0 all; form1 all; form2 with identity first wrapper; form3/4 with identity wrapper and 3 second atoms',
-                'thorough': 'form2 with every first wrapper; form3/4 with 5 first wrappers'},
+                'thorough': 'form2 with every second first-wrapper; form3/4 with first wrappers {identity, filter, shape}'},
         stubs=['std stand-in + operators/functions transcribed from edb/lib/std (=, !=, ?=, IN, EXISTS, DISTINCT, UNION, ??, IF, AND, OR, NOT, '
                '+, ++, count, uuid_generate_v1mc, BaseObject.id with its default, FreeObject, json)',
                'parser.parse_fragment serves exactly two fragments ("0", "std::uuid_generate_v1mc()") from a table',
